@@ -148,3 +148,109 @@ Example save_outside_lock_leaks :
   let t := trun sched (tinit "/home" (thread_steps_gen false "/pa" []) (thread_steps_gen false "/pb" [])) in
   t_remA t = [] /\ t_remB t = [] /\ t_cwd t = "/pa".
 Proof. vm_compute. repeat split; reflexivity. Qed.
+
+(* ------------------------------------------------------------------ (c) finders the script registers itself *)
+
+Definition meta_ins_fresh (hook : N) (os : list op) : Prop :=
+  forall f h, In (OMetaIns f h) os -> h <> hook.
+
+Lemma mem_n_false_app : forall h a b, mem_n h a = false -> mem_n h b = false -> mem_n h (a ++ b) = false.
+Proof. induction a as [|y r IH]; cbn; intros b A B; auto. apply orb_false_iff in A. destruct A as [A1 A2]. rewrite A1. apply IH; auto. Qed.
+Lemma remove_first_n_mid : forall h a b, mem_n h a = false -> remove_first_n h (a ++ h :: b) = a ++ b.
+Proof.
+  induction a as [|y r IH]; cbn; intros b A.
+  - rewrite N.eqb_refl; reflexivity.
+  - apply orb_false_iff in A. destruct A as [A1 A2]. rewrite A1. f_equal. apply IH; exact A2.
+Qed.
+
+(* sys.meta_path = finders the script put in front ++ the host's ++ [the analyser's hook] ++ finders the script appended *)
+Definition meta_shape (hook : N) (m0 : list N) (m : list N) : Prop :=
+  exists a b, m = a ++ m0 ++ hook :: b /\ mem_n hook a = false.
+
+Lemma run_op_meta_shape : forall hook m0 e o s, meta_shape hook m0 (meta s) ->
+  (forall f h, o = OMetaIns f h -> h <> hook) -> meta_shape hook m0 (meta (run_op e o s)).
+Proof.
+  intros hook m0 e o s (a & b & E & A) H; destruct o as [k [|n|k']|k|d|n kd|n|d|k c|fr h]; cbn;
+    try (exists a, b; split; [exact E|exact A]).
+  - destruct (get k' s); exists a, b; split; auto.
+  - rewrite (proj1 (proj2 (proj2 (do_chdir_facts _ _ _ _)))). exists a, b; split; auto.
+  - rewrite (proj1 (proj2 (proj2 (mutate_fields k c s)))). exists a, b; split; auto.
+  - assert (N : h <> hook) by (apply (H fr h); reflexivity).
+    destruct fr.
+    + exists (h :: a), b. split; [rewrite E; reflexivity|]. cbn. rewrite A.
+      assert (X : N.eqb hook h = false) by (apply N.eqb_neq; intros Y; apply N; symmetry; exact Y). rewrite X. reflexivity.
+    + exists a, (b ++ [h]). split; [|exact A]. rewrite E. rewrite <- !app_assoc. cbn. reflexivity.
+Qed.
+Lemma run_ops_meta_shape : forall hook m0 e os s, meta_shape hook m0 (meta s) ->
+  meta_ins_fresh hook os -> meta_shape hook m0 (meta (run_ops e os s)).
+Proof.
+  intros hook m0 e os; unfold run_ops. induction os as [|o r IH]; intros s S H; cbn; auto.
+  apply IH.
+  - apply run_op_meta_shape; auto. intros f h ->. apply (H f h). left; reflexivity.
+  - intros f h X. apply (H f h). right; exact X.
+Qed.
+
+(* Whatever finders the script registers (in front or at the end): afterwards the analyser's own hook
+   is gone, the host's finders are all there in their order, and the only additions are the
+   script's own finders. *)
+Theorem hook_removed_whatever_is_registered : forall root hook cy p s,
+  host_function_unaliased k_exit s -> (cy = true -> get k_cythonize s <> None) ->
+  mem_n hook (meta s) = false -> meta_ins_fresh hook (fst p) ->
+  exists s' a b, analyse root hook cy false p s = Alive s' /\ meta s' = a ++ meta s ++ b /\
+                 mem_n hook a = false.
+Proof.
+  intros root hook cy p s HE CY HK FR.
+  set (e := mk_env root hook cy false s). set (s0 := with_vcwd root s).
+  pose proof (patch_enter_rest outer_patched outer_base s0) as R1.
+  destruct (patch_enter outer_patched outer_base s0) as [s1 ot] eqn:PE. cbn [fst] in R1.
+  assert (M1 : meta s1 = meta s) by (unfold rest in R1; exact (f_equal (fun x => snd (fst x)) R1)).
+  destruct (patch_enter_spec _ _ _ _ _ PE outer_nodup) as ([F1 _] & _).
+  destruct (enter_parse e s1) as [[s2 tk]|s2] eqn:EP.
+  2:{ exfalso. destruct (enter_parse_inr_inv _ _ _ EP) as [C G]. apply (CY C).
+      rewrite <- G. symmetry. rewrite F1; [reflexivity|]. apply misc_not_outer. apply cythonize_in_misc. }
+  destruct HE as [HrE HnE].
+  assert (N2 : novalue (e_real_exit e) s2).
+  { eapply enter_parse_novalue_exit; eauto. eapply nve_patch_enter; eauto. }
+  pose proof (body_not_died e p s2 HrE N2) as ND.
+  destruct (analyse_inl root hook cy p s s1 ot s2 tk PE EP ND) as (s' & A & _ & _ & _ & _ & _ & ME & _).
+  (* sys.meta_path when the restores start *)
+  assert (M2 : meta s2 = meta s ++ [hook]).
+  { rewrite enter_parse_unfold in EP.
+    pose proof (pre_begin_facts e s1) as PB. cbv zeta in PB.
+    destruct (pre_begin e s1) as [[s3 oldc]|]; [|discriminate]. cbn in PB. destruct PB as (_ & _ & _ & M3 & _).
+    pose proof (begin_all_rest begin_patched begin_base s3) as R4.
+    destruct (begin_all begin_patched begin_base s3) as [s4 bt]. cbn in R4.
+    pose proof (patch_enter_rest inner_patched inner_base (with_meta (meta s4 ++ [e_hook e]) s4)) as R6.
+    destruct (patch_enter inner_patched inner_base (with_meta (meta s4 ++ [e_hook e]) s4)) as [s6 it].
+    inversion EP; subst. cbn in R6. unfold rest in R4, R6. cbn in R6.
+    pose proof (f_equal (fun x => snd (fst x)) R6) as Hm; cbn in Hm.
+    pose proof (f_equal (fun x => snd (fst x)) R4) as Hm4; cbn in Hm4. congruence. }
+  assert (SH : meta_shape hook (meta s) (meta (fst (body e p s2)))).
+  { unfold body. cbn [fst]. apply run_ops_meta_shape.
+    - rewrite (proj1 (proj2 (proj2 (do_chdir_facts _ _ _ _)))).
+      exists [], []. split; [|reflexivity]. destruct path_insert_in_try; cbn [meta with_path]; rewrite M2; reflexivity.
+    - destruct (eff_ops_cases p) as [E|E]; rewrite E; [intros f h []|exact FR]. }
+  destruct SH as (a & b & E & HA).
+  assert (MEM : mem_n hook (meta (fst (body e p s2))) = true).
+  { rewrite E. clear. induction a as [|y r IH]; cbn.
+    - induction (meta s) as [|z q IHq]; cbn; [rewrite N.eqb_refl; reflexivity|rewrite IHq; apply orb_true_r].
+    - rewrite IH. apply orb_true_r. }
+  exists s', a, b. split; [exact A|]. split; [|exact HA].
+  rewrite (ME MEM). fold e. rewrite E.
+  replace (a ++ meta s ++ hook :: b) with ((a ++ meta s) ++ hook :: b) by (rewrite <- app_assoc; reflexivity).
+  rewrite remove_first_n_mid; [rewrite <- app_assoc; reflexivity|].
+  apply mem_n_false_app; assumption.
+Qed.
+
+(* the finder the script registered itself is still there afterwards *)
+Lemma meta_path_finder_refuted :
+  exists p s', analyse ex_root ex_hook false false p ex_state = Alive s' /\
+    meta s' = meta ex_state ++ [77%N] /\ mem_n ex_hook (meta s') = false.
+Proof. exists ([OMetaIns false 77%N], Finish). eexists. split; [vm_compute; reflexivity|]. split; vm_compute; reflexivity. Qed.
+
+(* what `sys.meta_path.pop()` instead of remove(meta_hook) would do on that script *)
+Example pop_removes_the_wrong_finder :
+  run_fstep (mk_env ex_root ex_hook false false ex_state) (mkToks None [] [] false [])
+            FMetaPop (with_meta [1%N; 2%N; 999%N; 77%N] ex_state)
+  = Some (with_meta [1%N; 2%N; 999%N] ex_state).
+Proof. vm_compute. reflexivity. Qed.
